@@ -148,13 +148,15 @@ def select(name):
         "statn_sparse": lambda: [A.SelectAll(), A.SetStat("stat_sparse", lag=D(days=1)), A.SelectN(2, filter_selected=True)],
         "where": lambda: [A.SelectWhere("signal")],
         "randomly": lambda: [A.SelectAll(), A.SelectRandomly(2)],
+        # no selector in front, and more names asked for than are priced while a ticker is not yet listed
+        "randomly_raw": lambda: [A.SelectRandomly(4)],
         "regex": lambda: [A.SelectAll(), A.SelectRegex("^[ab]$")],
         "types": lambda: [A.SelectAll(), A.SelectTypes(include_types=(bt.core.SecurityBase,))],
     }
     return m[name]()
 
 
-SELECTS = ["all", "these", "hasdata", "momentum", "momentum_lag", "statn", "statn_lag", "statn_sparse", "where", "randomly", "regex", "types"]
+SELECTS = ["all", "these", "hasdata", "momentum", "momentum_lag", "statn", "statn_lag", "statn_sparse", "where", "randomly", "randomly_raw", "regex", "types"]
 
 
 def weigh(name):
@@ -596,13 +598,7 @@ def family(tier, seed, nested_full=False):
 # observation of a finished run
 
 
-def node_path(n):
-    """the driver's own walk to the root (not the node's full_name attribute)"""
-    names = [n.name]
-    while n.parent is not n:
-        n = n.parent
-        names.append(n.name)
-    return ">".join(reversed(names))
+node_path = rt.node_path
 
 
 def run_histories(b):
